@@ -25,6 +25,14 @@ os.makedirs(out, exist_ok=True)
 for f in ('patch.diff', 'demo.py', 'notes.txt'):
     if os.path.exists(os.path.join(seed_dir, f)):
         shutil.copy(os.path.join(seed_dir, f), os.path.join(out, f))
+# demonstrations written by the sub-agents may pin their own worktree path: make it follow PYTHONPATH
+_demo = os.path.join(out, 'demo.py')
+if os.path.exists(_demo):
+    _src = open(_demo).read()
+    _src2 = re.sub(r"(['\"])" + re.escape(seed_dir.rstrip('/')) + r"/src/?\1", "__import__('os').environ.get('PYTHONPATH', '').split(':')[0]", _src)
+    _src2 = _src2.replace(seed_dir.rstrip('/') + '/', "' + __import__('os').getcwd() + '/") if False else _src2
+    if _src2 != _src:
+        open(_demo, 'w').write(_src2)
 scratch = tempfile.mkdtemp(prefix='fxseed_')
 os.rmdir(scratch)
 sh = lambda cmd, **kw: subprocess.run(cmd, shell=True, capture_output=True, text=True, **kw)  # noqa: E731
